@@ -203,6 +203,34 @@ def sorted_or_keyed(by_path, f, p, depth=0):
     if ins:
         keyed = all(any(o.suffix and o.suffix[-1] == '.index' for o in origins(f, t['args'][1])) for bb, t in ins)
         return keyed, ('inserted into a BTreeMap keyed by the index' if keyed else 'inserts aggregated tuples into a map that is not keyed by their index')
+    # iter().map(|row| (row.index, ..)).collect::<BTreeMap<_, _>>(): keyed by the index
+    for cb, ct in f.calls('core::iter::traits::iterator::Iterator::collect'):
+        if not any('alloc::collections::btree::map::BTreeMap<' in x for x in (ct.get('targs') or [])):
+            continue
+        src = origins(f, ct['args'][0])
+        if not src or not all(o.kind == 'call' and last_seg(o.term.get('callee') or '') == 'map' for o in src):
+            continue
+        keyed = True
+        for o in src:
+            base = origins(f, o.term['args'][0])
+            if not base or not all(x.kind == 'call' and x.bb in [s_[1] for s_ in iters] for x in base):
+                keyed = False
+            for x in origins(f, o.term['args'][1]):
+                g = None
+                if x.kind == 'agg' and x.stmt['rv'].get('ak') == 'closure':
+                    g = next((h for hs in by_path.values() for h in hs if h.path == x.stmt['rv']['def']), None) or \
+                        next((h for h in f.crate.built if h.path == x.stmt['rv']['def']), None)
+                if g is None:
+                    keyed = False
+                    continue
+                ret = origins(g, {'l': 0, 'p': []})
+                for r in ret:
+                    if not (r.kind == 'agg' and r.stmt['rv'].get('ak', '').startswith('tuple') and r.stmt['rv']['ops'] and
+                            any(y.suffix and '.index' in y.suffix for y in origins(g, r.stmt['rv']['ops'][0]))):
+                        keyed = False
+                if not ret:
+                    keyed = False
+        return keyed, ('collected into a BTreeMap keyed by the index' if keyed else 'collects aggregated tuples into a map that is not keyed by their index')
     if depth < 2:
         helpers = []
         for s in sinks:
